@@ -128,9 +128,12 @@ def objects(schema, source, **kw):
     from xmlschema import DataElementConverter
     kw.setdefault('converter', DataElementConverter)
     r = schema.decode(source, map_attribute_names=False, **kw)
+
+    def canon(x):
+        return [de_canon(y) for y in x] if isinstance(x, list) else de_canon(x)
     if isinstance(r, tuple):
-        return de_canon(r[0]), r[1]
-    return de_canon(r)
+        return canon(r[0]), r[1]
+    return canon(r)
 
 
 def first_diff(a, b, path=''):
